@@ -158,8 +158,10 @@ def unit_scaling_backend(
                 # instead substituted for its unit scaled equivalent here.
                 if not is_residual_add:
                     logger.info("unit scaling function: %s", node)
-                    args = (*node.args, None)  # None denotes unconstrained
-                    replace_node_with_function(graph, node, U.add, args=args)
+                    # None denotes unconstrained. Passed by keyword (as in
+                    # `_unconstrain_node`) so that it can never be supplied twice
+                    kwargs = dict(node.kwargs, constraint=None)
+                    replace_node_with_function(graph, node, U.add, kwargs=kwargs)
 
         # Replace nodes marked as residual-adds with unit scaled equivalent
         for node in graph.nodes:
